@@ -138,6 +138,7 @@ fn drive(c: &Case) -> Result<Seen, mon::PanicInfo> {
     let tls = c.transport == "tls";
     let react = c.reactivations.clone();
     let seed = c.nla_seed;
+    let write_chunk = c.write_chunk;
     let connect = mon::guarded(move || {
         let conn = if tls { client::connect_real(&cfg, d.clone()) } else { client::connect_plain(&cfg, d.clone()) };
         match conn {
@@ -150,6 +151,17 @@ fn drive(c: &Case) -> Result<Seen, mon::PanicInfo> {
                 }
                 // a few input events of every kind (their PDUs are parsed strictly by the server)
                 let mut r = Rng::new(seed ^ 0x1234);
+                // on the plain transport, one case in three: the transport refuses one write call (nothing consumed,
+                // an error the application survives) somewhere among the input events; the session goes on.
+                // Not combined with short writes: a refusal in the middle of a frame leaves a partial frame on the
+                // wire whatever the client does.
+                if !tls && seed % 3 == 0 && write_chunk == usize::MAX {
+                    // any of the 12 input writes, the last of them (the next PDU is then the short disconnect ultimatum or the
+                    // long confirm-active), or one of the writes of the re-activation that follows
+                    let nth = if r.chance(1, 4) { 11 } else { r.below(18) as usize };
+                    let kind = *r.pick(&[std::io::ErrorKind::WouldBlock, std::io::ErrorKind::TimedOut, std::io::ErrorKind::Interrupted]);
+                    d.with(|s| s.fail_write_once = Some((nth, kind)));
+                }
                 for _ in 0..6 {
                     let (x, y, code) = (r.edge16(), r.edge16(), r.edge16());
                     let down = r.chance(1, 2);
